@@ -63,7 +63,8 @@ def cases_for(prop, tier, seed):
                 [c for c in gen.fam_reentrant(g, "C01-re", 0) if "hcomplete" in c.split("(react")[1].split("))")[0] or "herror" in c.split("(react")[1].split("))")[0]])
     if prop == "C02":
         return (gen.fam_single_ops(g, "C02-single") + gen.fam_creation(g, "C02-create") +
-                gen.fam_pairs(g, "C02-pair", 4 if T else 1) + gen.fam_chains(g, "C02-chain", 300 * k, depth=(2, 4)))
+                gen.fam_pairs(g, "C02-pair", 4 if T else 1) + gen.fam_chains(g, "C02-chain", 300 * k, depth=(2, 4)) +
+                gen.fam_reentrant_values(g, "C02-re", 6 if T else 2))
     if prop == "C03":
         combs = ("merge", "concat", "zip", "amb", "take_until", "skip_until", "sample", "switch_on_next", "combine_latest", "sequence_equal", "flat_map")
         return (gen.fam_combinators(g, "C03-comb", 60 * k) + gen.fam_hot(g, "C03-hot", 200 * k, depth=(1, 3)) +
